@@ -7,9 +7,38 @@ NOT_APPLICABLE = {
 
 # properties not claimed yet (build in progress); removed from here as their checks land
 NOT_YET = {p: "not claimed yet: contracts for the functions it depends on are still being built (see DESIGN 12)" for p in
-           ["C01", "C02", "C03", "C04", "C06", "C07", "C08", "C09", "C10", "C11", "C12", "C13", "C14", "C15", "C16", "C17", "C20"]}
+           ["C01", "C02", "C09", "C10", "C11", "C12", "C15", "C17"]}
+
+TECH = "contract-based deductive verification of the real functions (own VC generator over the Python AST, z3/cvc5 out of process); bounded run-time enumeration as labelled stand-in for engine assumptions"
+def _t(text, note, level="proof"):
+    return {"level": level, "technique": TECH, "text": text, "note": note}
+
 
 CHECK_TEXT = {
+    "C03": _t("Obligations of FakeSnowflakeConnection.__init__, FakeSnow.connect, conn.cursor, is_unqualified_table_expression, key_command, _transform and _execute that carry the session-context "
+              "invariant, the 90105/90106 guard and the USE bookkeeping are discharged for all statements and session states; known findings (USE DATABASE keeps the old schema name; USE SCHEMA without database; "
+              "multi-table statements) are excluded by name and printed.",
+              "Trusted: DuckDB resolves names against the search path set by SET schema; sqlglot shapes; the transform pipeline's well-formedness of bookkeeping arguments (A-WF). Bounded histories on the real stack."),
+    "C04": _t("key_command classification and _execute's count / status / rowcount postconditions are discharged for every statement kind, count (0 included) and session state.",
+              "Trusted: DuckDB changes exactly the right rows and reports the true count (A-DUCK 2); bounded DML histories against a Python reference exercise it."),
+    "C06": _t("The rowtype table is proved for every DuckDB result type of the domain (all DECIMAL(p,s) in the thorough tier); _describe_last_sql is proved to change nothing reachable from the cursor or "
+              "connection; _execute keeps the statement whose result is held. Known finding (DECIMAL(p,0)/HUGEINT fetched as Decimal) is printed.",
+              "Trusted: DuckDB DESCRIBE reports the held result's types; A-SQLGLOT; A-WF. Bounded: description vs describe() vs fetched values over statement kinds."),
+    "C07": _t("Exceptional postconditions of _execute/execute (error translation table, context unchanged, result reset, sqlstate set/reset, undefined variable before execution) are discharged on every raise path.",
+              "Trusted: which DuckDB exception class a cause produces (A-DUCK 1): bounded tier over missing/duplicate objects x transaction modes x closed connection."),
+    "C08": _t("Parameter plumbing (_rewrite_with_params, execute order of inlining and binding, executemany once-per-set, paramstyle snapshot at connect) is discharged for all parameter containers and styles.",
+              "Trusted: the connector's quoting denotes the value and cannot terminate itself (A-SFC); `%` formatting (A-PY). Bounded adversarial values on the real stack."),
+    "C13": _t("The fakesnow-side obligations (own DuckDB connection per connect shared by its cursors, COMMIT/ROLLBACK no-ops, conn.commit/rollback, statements run on the cursor's own connection) are discharged; "
+              "atomicity/isolation are DuckDB's. Known finding: snapshot isolation hides another connection's COMMIT from a connection inside its own transaction.",
+              "Trusted: DuckDB MVCC (A-DUCK 4). Bounded: interleavings of transactional scripts on two connections."),
+    "C14": _t("Every obligation of FakeSnowflakeConnection.__init__ (never raises, creates exactly what the options allow, context flags, upper-cased names, bootstrap, file naming) and FakeSnow.connect (option plumbing) "
+              "is discharged for all arguments, flags and prior catalog states.",
+              "Trusted: meaning of the seven SQL templates of connect (A-DUCK 3), matched syntactically. Bounded: the complete configuration product on the real stack."),
+    "C16": _t("The no-op path of execute (nothing parsed or transformed, exactly the success select, only when configured) is discharged; execute_string is outside the verifier's subset and decided by the bounded tier only.",
+              "Trusted: re.match (A-PY), sqlglot parse/generate round trip (A-SQLGLOT 5). Bounded: execute_string vs one-by-one, nop pattern sets."),
+    "C20": _t("cli.split is proved to cut every argument list of the property's domain exactly after the target spec (loop invariant against a recursive scanner spec from the option table); "
+              "patch() and cli.main are outside the subset: bounded only.",
+              "Trusted: argparse for the parser built by arg_parser(); unittest.mock.patch. Bounded: exhaustive argv enumeration, six patch() exit modes."),
     "C05": {
         "level": "proof",
         "technique": "contract-based deductive verification (own VC generator over the real Python AST, z3/cvc5), bounded fetch-sequence enumeration as stand-in for the engine assumptions",
